@@ -594,12 +594,13 @@ def _parse_experimental_function_value_info_name(
         A tuple of the function domain, function name and value name if the value info is for a function.
         None otherwise.
     """
-    parts = name.split("/")
-    expected_parts = 2
-    if len(parts) != expected_parts:
+    # The function part ends at the first "/": value names are often hierarchical
+    # ("layer/act/out") and may contain more of them
+    function, separator, value_name = name.partition("/")
+    if not separator:
         return None
-    function, value_name = parts
     parts = function.split("::")
+    expected_parts = 2
     if len(parts) != expected_parts:
         return None
     # NOTE: There will not be overload because overloads are introduced in ONNX IR v10, which also
@@ -1756,6 +1757,21 @@ def _serialize_experimental_value_info_for_function_ir9_into(
 
     def format_name(value_name: str) -> str:
         return f"{function_qualified_name}/{value_name}"
+
+    if function.overload or _parse_experimental_function_value_info_name(format_name("v")) != (
+        function.domain,
+        function.name,
+        "v",
+    ):
+        # The experimental format cannot express this function identifier (an overload,
+        # "/" in the function name, "::" in the domain): entries written for it could
+        # not be attributed to the function when the model is read back.
+        logger.warning(
+            "Function '%s': value info cannot be stored for this function identifier "
+            "in models with IR version < 10",
+            function_qualified_name,
+        )
+        return
 
     for input in function.inputs:
         if not input.name:
